@@ -72,7 +72,7 @@ def nd_idx(dims, constructs=None, rounds=1):
 # the sub-component constructs are the heaviest (4 arrays of instances each): the quick tier has two of the four in 3-D
 _ND_LIGHT = ["port", "sport", "wire", "pfield", "pfwire", "pftmp", "sfield", "ifc", "ifcnest", "ifcport", "ffwire", "constarr"]
 GEN = {
-    "quick": [("unit", 160), ("ops", 40), ("expr", 24), ("ctrl", 24), ("loopidx", 10), ("struct", 10), ("hier", 10),
+    "quick": [("unit", 160), ("ops", 40), ("expr", 24), ("ctrl", 24), ("loopidx", 10), ("struct", 10), ("hier", 14),
               ("seq", 12), ("misc", 14),
               ("nd", nd_idx([1, 2]) + nd_idx([3], _ND_LIGHT + ["comphet", "compifc"])),
               ("lv", 8), ("stmt", 28)],
@@ -99,7 +99,7 @@ QUICK_STDLIB = ["RoundRobinArbiter_4", "RoundRobinArbiterEn_3", "Mux_8_4", "Mux_
 # translation is invalid / disconnected for every size (known findings: struct-typed temporaries, nested
 # interfaces, struct wires) and the heaviest ones only in 2-D; the whole grid in the thorough tier)
 GEN_C12 = {
-    "quick": [("unit", 40), ("ops", 8), ("expr", 10), ("ctrl", 12), ("loopidx", 10), ("struct", 16), ("hier", 10),
+    "quick": [("unit", 40), ("ops", 8), ("expr", 10), ("ctrl", 12), ("loopidx", 10), ("struct", 16), ("hier", 14),
               ("seq", 8), ("misc", 14),
               ("nd", nd_idx([2], ["port", "sport", "wire", "pfield", "pfwire", "pftmp", "ifc", "ifcnest", "ifcport", "comp",
                                   "ffwire", "constarr"])
